@@ -565,7 +565,7 @@ func c19Gaps(shard, shards int) {
 		tr = "/* \u00e9 */"
 		wide = 1
 	case 6:
-		tr = "/*\u65e5\u672c" + c19Char() + "*/"
+		tr = "/*\u65e5\u672c" + c19CharFor(false) + "*/"
 		wide = 4
 	case 0:
 		tr = " "
@@ -574,9 +574,9 @@ func c19Gaps(shard, shards int) {
 	case 2:
 		tr = " \n  "
 	case 3:
-		tr = "/*" + c19Char() + "*/"
+		tr = "/*" + c19CharFor(len(pr.src) < 400) + "*/"
 	case 4:
-		tr = "//" + c19Char() + "\n"
+		tr = "//" + c19CharFor(len(pr.src) < 400) + "\n"
 	}
 	src := pr.src[:at] + tr + pr.src[at:]
 	c19Check(Run(src), pr, src, at, tr, "inserting trivia between two tokens", wide)
@@ -584,9 +584,13 @@ func c19Gaps(shard, shards int) {
 
 // c19Char: one symbolic character of comment text: any printable ASCII character in the thorough tier; in the quick
 // tier one of the characters that could interact with comment / string / tag syntax plus a letter and a blank.
-func c19Char() string {
+func c19Char() string { return c19CharFor(true) }
+
+// c19CharFor: wide = every printable ASCII character may be used (thorough tier, small programs); otherwise the six
+// characters that interact with comment / string / tag syntax.
+func c19CharFor(wide bool) string {
 	c := verifrt.String("c", 1)
-	if verifrt.Thorough() {
+	if verifrt.Thorough() && wide {
 		verifrt.Assume(c[0] >= 0x20 && c[0] < 0x7f)
 	} else {
 		verifrt.Assume(c[0] == '*' || c[0] == '/' || c[0] == '"' || c[0] == '@' || c[0] == 'x' || c[0] == ' ')
